@@ -485,6 +485,9 @@ int main(int argc, char **argv)
 				break;
 			}
 			}
+			/* a quarter of the callback cells: the documented context-only update (NULL callback, a context) after the registration; the
+			 * callback stays registered */
+			if ((idx & 3) == 3 && ((route >= 1 && route <= 4) || route >= 8)) jwt_checker_setcb(chk, NULL, &cx);
 			if (route < 5) printf("[\"S\",%ld,%d,%d,%d,%d,%d,%d,%d,%d]\n", idx, prov, route, cfg, ki, kalg, pub, setkey_rc, jwt_checker_error(chk));
 			jwt_checker_error_clear(chk);
 			for (int hi = 0; hi < L_hdr.n; hi++)
@@ -561,6 +564,11 @@ int main(int argc, char **argv)
 				break;
 			}
 			}
+			if ((idx & 3) == 3 && ((route >= 1 && route <= 4) || route >= 8)) jwt_builder_setcb(b, NULL, &cx);
+			/* a quarter of the builder cells: the application has put an "alg" member of its own into the header (as a string, or through a
+			 * JSON header template); the token still names the pinned algorithm and nothing else */
+			if ((idx & 7) == 5) { jwt_value_t hv; jwt_set_SET_STR(&hv, "alg", (idx & 8) ? "RS256" : "none"); jwt_builder_header_set(b, &hv); }
+			if ((idx & 7) == 6) { jwt_value_t hv; jwt_set_SET_JSON(&hv, NULL, (idx & 8) ? "{\"alg\":\"HS256\",\"typ\":\"own\"}" : "{\"alg\":7}"); jwt_builder_header_set(b, &hv); }
 			if (route < 5) printf("[\"T\",%ld,%d,%d,%d,%d,%d,%d,%d,%d]\n", idx, prov, route, cfg, ki, kalg, pub, setkey_rc, jwt_builder_error(b));
 			jwt_builder_error_clear(b);
 			{	/* header and payload JSON of every length residue mod 3 (base64 with and without padding in either segment) */
